@@ -205,6 +205,9 @@ func judge(c *Case, obs []CallObs, res *lib.Result) {
 			}
 			if nd.Kind == "comp" {
 				tags["comp:"+tyNames[nd.Ty]] = true
+				if nd.Nat != 0 {
+					tags[fmt.Sprintf("lambda-native:%d", nd.Nat)] = true
+				}
 			} else {
 				tags["kind:"+nd.Kind] = true
 			}
